@@ -189,6 +189,43 @@ class Problem:
         fn, kw = self._maker
         return fn(rng, **kw)
 
+    def rescaled(self, c):
+        """The same problem in the time unit tau = t / c (all rates multiplied by c, span divided by c).
+
+        x(tau) solves dx/dtau = c f(c tau, x): the solution *values* are unchanged, so an integrator whose step-size
+        control is dimensionally consistent returns the same states and the same errors.  Closed-form families only."""
+        c = float(c)
+        n, q = self.n, self.params.copy()
+        x0 = self.x0.copy()
+        aux = dict(self.aux)
+        if self.code == LINROT:
+            q[:n * n] *= c
+            q[n * n] *= c            # d
+            q[n * n + 2] *= c        # w
+            aux["omega"] = aux["omega"] * c
+        elif self.code == FORCED:
+            q[:n * n] *= c
+            q[n * n] *= c
+            i = n * n + 1
+            q[i + n:i + 2 * n] *= c          # nu
+            q[i + 3 * n:i + 4 * n] *= c      # beta
+            aux["omega"] = aux["omega"] * c
+        elif self.code == KEPLER:
+            q[0] *= c * c
+            x0[2:] *= c
+        elif self.code == LOGISTIC:
+            q[0] *= c
+            q[2] *= c
+        elif self.code == POLYT:
+            cc = q.reshape(n, 4)
+            for k in range(4):
+                cc[:, k] *= c ** (k + 1)
+            q = cc.ravel()
+        else:
+            raise ValueError("rescaled() is implemented for the closed-form families only")
+        P = Problem(self.code, x0, q, self.t0 / c, self.T / c, self.rate * c, aux, f"{self.label}@x{c:g}")
+        return P
+
     def describe(self):
         return {"family": self.family, "label": self.label, "n": self.n, "t0": self.t0, "T": self.T, "x0": self.x0,
                 "params": self.params, "rate": self.rate}
@@ -581,6 +618,26 @@ def selftest(verbose=True, seed=0):
             expect(err < 1e-10, f"{P.label}: SciPy reference self-consistent 1e-13 vs 3e-12 (diff {err:.1e}, accuracy() {P.accuracy():.1e})")
         kap = P.kappa()
         expect(1.0 <= kap < 1e4, f"{P.label}: kappa = {kap:.2f}")
+    # (3b) time-rescaled twins have the same solution values and still satisfy their ODE
+    for P in probs:
+        if not P.closed_form:
+            continue
+        for c in (1e-2, 1e3):
+            R = P.rescaled(c)
+            tq = np.linspace(P.t0, P.t0 + P.T, 17)
+            a, b = P.exact(tq), R.exact(tq / c)
+            if P.code == KEPLER:
+                b = b.copy()
+                b[:, 2:] /= c
+            d = float(np.max(np.abs(a - b)))
+            tm = R.t0 + 0.4 * R.T
+            hh = 1e-3 / R.rate
+            xm2, xm, x, xp, xp2 = R.exact(np.array([tm - 2 * hh, tm - hh, tm, tm + hh, tm + 2 * hh]))
+            der = (-xp2 + 8 * xp - 8 * xm + xm2) / (12 * hh)
+            rhs = f(float(tm), R.augment(x))[:R.n]
+            res = float(np.max(np.abs(der - rhs)) / (1 + np.max(np.abs(rhs))))
+            expect(d < 1e-12 * (1 + np.max(np.abs(a))) * max(1.0, P.rate * P.T) and res < 2e-9,
+                   f"{P.label}: time unit x{c:g}: same solution values ({d:.1e}), ODE residual {res:.1e}")
     # (4) linear closed form against mpmath expm on the float64 matrix actually carried in the parameters
     mp = mpmath.MPContext()
     mp.dps = 30
